@@ -47,6 +47,7 @@ fn full_universe() -> Vec<AQuad> {
         ATerm::typed("[1]", &format!("{RDF}JSON")),
         ATerm::typed("v", &format!("{I18N}en_ltr")),
         ATerm::typed("v", &format!("{I18N}en-GB_rtl")),
+        ATerm::typed("v", &format!("{I18N}_ltr")),
         ATerm::lit("ltr"),
         ATerm::typed("1", &format!("{XSD}integer")),
         ATerm::typed("true", &format!("{XSD}boolean")),
@@ -316,7 +317,23 @@ impl Pooled for C12 {
                     let without_list_types: Vec<AQuad> = expected.iter().filter(|q| !(q.0[1] == rdf("type") && q.0[2] == rdf("List") && is_cell(&q.0[0]))).cloned().collect();
                     let compound_vocab = [rdf("value"), rdf("direction"), rdf("language")];
                     let without_compound: Vec<AQuad> = expected.iter().filter(|q| !(matches!(q.0[0], ATerm::Bnode(_)) && compound_vocab.contains(&q.0[1]))).cloned().collect();
-                    let sig = if without_list_types.len() < expected.len() && iso(&v, &without_list_types) {
+                    // i18n datatypes with an empty language part ("...i18n#_ltr"): written as {"@value","@direction"}
+                    // (correct), read back by the third-party processor as "...i18n#ltr"
+                    let i18n_misread: Vec<AQuad> = expected
+                        .iter()
+                        .map(|q| {
+                            let mut q = q.clone();
+                            if let ATerm::Lit(dt, None, lex) = &q.0[2] {
+                                if let Some(dir) = dt.strip_prefix(&format!("{I18N}_")) {
+                                    q.0[2] = ATerm::typed(lex, &format!("{I18N}{dir}"));
+                                }
+                            }
+                            q
+                        })
+                        .collect();
+                    let sig = if c.direction == 1 && i18n_misread != expected && text.contains("@direction") && iso(&v, &i18n_misread) {
+                        "i18n-datatype-without-language-misread-by-parser".to_string()
+                    } else if without_list_types.len() < expected.len() && iso(&v, &without_list_types) {
                         "typed-list-cell-loses-rdf-type".to_string()
                     } else if c.direction == 2 && text.contains("@direction") && without_compound.len() < expected.len() && iso(&v, &without_compound) {
                         "compound-literal-not-restored-by-parser".to_string()
